@@ -19,6 +19,10 @@ CLAIMS = {
   "Deductive (z3 strings): find_break_point for every string/window/key list (result inside the window, at a key, priority order, raises iff no key); _get_line_type against the free-form comment/sentinel classification (regexes translated to z3 regex); FortLineLength.process for every text and every limit 40..132: every output line within the limit, text without long lines returned unchanged (hence idempotence by the stated lemma), wrapping loop terminates, no exception except InternalError and only when a line must be wrapped. Two genuine defects are recorded as known findings (no break key -> InternalError; '&' continuation inside a trailing comment).",
   "Trusted: pyvc, z3 seq theory, models of lstrip/rfind/split/slices, regex translation. NOT proved: that joined continuation lines give back the statement text and the lexical context of a break (only a bounded run-time contract on the real code, labelled bounded in the evidence).",
   TECH + "; string VCs with engine-side instantiation of the defining facts of two ghost predicates; bounded run-time contract as stand-in for content preservation"),
+ "C25": ("proof",
+  "Deductive: (a) GOLoop.setup_bounds is a closed function: it is executed and every entry of the resulting built-in table becomes z3 obligations for all start<=stop (entry grammar '{start|stop}[+-k]', region within the depth-1 halo, non-empty, all-points region contains the internal region); (b) the real bodies of GOLoop.get_custom_bound_string, lower_bound and upper_bound are verified by VC generation: the custom bound is exactly the table entry of the loop's (offset, field space, iteration space, loop type, side) with {stop} replaced by the x extent for inner and the y extent for outer loops, taken from the first r2d_field argument; internal/all-points loops take the internal/whole grid property of their loop type and side.",
+  "Trusted/assumed: pyvc, z3; Config/ancestor/symbol-table accessors as engine hooks; str.format/lower uninterpreted. NOT covered: agreement of the table with the dl_esm_inf run-time regions (library absent from this checkout), hence region equality with and without constant loop bounds; GOConstLoopBoundsTrans.apply, add_bounds and the transformations that must keep the region are not under contract (seeded change C25b is missed for this reason).",
+  TECH + "; executed closed table + z3 obligations over all grid sizes"),
 }
 
 NA = {
